@@ -14,6 +14,19 @@ n_traces = 0
 def bits(x):
     return "%016x" % struct.unpack("<Q", struct.pack("<d", float(x)))[0]
 
+def reraise_if_control(e):
+    if isinstance(e, (KeyboardInterrupt, SystemExit)):
+        raise e
+
+def attempt(label, fn):
+    """run one driver call; an exception (also a Rust panic surfacing as PanicException, which is a
+    BaseException) becomes an error trace, which the replay side reports as a violation"""
+    try:
+        fn()
+    except BaseException as e:
+        reraise_if_control(e)
+        emit({"kind": "error", "class": "driver " + label, "steps": [], "error": repr(e)})
+
 def emit(rec):
     global n_traces
     n_traces += 1
@@ -86,7 +99,7 @@ def apply(op, args):
 def unary_ops():
     ops = [{"name": n} for n in UNARY_METHODS]
     ops += [{"name": "Log", "f": 2.5}, {"name": "SinCosS"}, {"name": "SinCosC"}, {"name": "Powi", "i": 3}, {"name": "Powi", "i": -2}, {"name": "Powf", "f": 2.5},
-            {"name": "PowInt", "i": 2}, {"name": "PowInt", "i": 5}, {"name": "PowInt", "i": 0}, {"name": "PowFloat", "f": 2.0}, {"name": "PowFloat", "f": -1.5}, {"name": "Neg"},
+            {"name": "PowInt", "i": 2}, {"name": "PowInt", "i": 5}, {"name": "PowInt", "i": 0}, {"name": "PowInt", "i": 2**32 + 2}, {"name": "PowInt", "i": -(2**31) - 1}, {"name": "PowInt", "i": 2**31 - 1}, {"name": "PowFloat", "f": 2.0}, {"name": "PowFloat", "f": -1.5}, {"name": "Neg"},
             {"name": "AddF", "f": 0.75}, {"name": "SubF", "f": 0.75}, {"name": "MulF", "f": -1.5}, {"name": "DivF", "f": 4.0}, {"name": "AddI", "i": 2}, {"name": "MulI", "i": 3},
             {"name": "RAddF", "f": 0.75}, {"name": "RSubF", "f": 0.75}, {"name": "RMulF", "f": -1.5}, {"name": "RDivF", "f": 4.0}]
     return ops
@@ -125,7 +138,8 @@ def explore_class(cls, depth):
     for op1, a1 in l1:
         try:
             r2 = apply(op1, [regs0[i] for i in a1])
-        except Exception as e:
+        except BaseException as e:
+            reraise_if_control(e)
             emit({"kind": "error", "class": cls, "steps": [{"op": op1, "args": a1}], "error": repr(e)})
             continue
         record_prog(cls, ins, [(op1, a1)], r2)
@@ -135,7 +149,8 @@ def explore_class(cls, depth):
         for op2, a2 in steps_for(3, True):
             try:
                 r3 = apply(op2, [regs[i] for i in a2])
-            except Exception as e:
+            except BaseException as e:
+                reraise_if_control(e)
                 emit({"kind": "error", "class": cls, "steps": [{"op": op1, "args": a1}, {"op": op2, "args": a2}], "error": repr(e)})
                 continue
             record_prog(cls, ins, [(op1, a1), (op2, a2)], r3)
@@ -185,11 +200,10 @@ def nested_bits(v):
 
 def drivers(max_n):
     for ops in CHAINS_Q:
-        seen = {}
         for x in (0.625, 1.375):
-            emit({"kind": "driver", "name": "first_derivative", "chain": ops, "x": [bits(x)], "result": nested_bits(nd.first_derivative(lambda t: chain(t, ops), x))})
-            emit({"kind": "driver", "name": "second_derivative", "chain": ops, "x": [bits(x)], "result": nested_bits(nd.second_derivative(lambda t: chain(t, ops), x))})
-            emit({"kind": "driver", "name": "third_derivative", "chain": ops, "x": [bits(x)], "result": nested_bits(nd.third_derivative(lambda t: chain(t, ops), x))})
+            attempt("first_derivative", lambda: emit({"kind": "driver", "name": "first_derivative", "chain": ops, "x": [bits(x)], "result": nested_bits(nd.first_derivative(lambda t: chain(t, ops), x))}))
+            attempt("second_derivative", lambda: emit({"kind": "driver", "name": "second_derivative", "chain": ops, "x": [bits(x)], "result": nested_bits(nd.second_derivative(lambda t: chain(t, ops), x))}))
+            attempt("third_derivative", lambda: emit({"kind": "driver", "name": "third_derivative", "chain": ops, "x": [bits(x)], "result": nested_bits(nd.third_derivative(lambda t: chain(t, ops), x))}))
         for n in range(1, max_n + 1):
             x = point(n)
             types = []
@@ -198,19 +212,27 @@ def drivers(max_n):
                 types.append(type(xs[0]).__name__)
                 seeds.append([getattr(xi, "first_derivative", None) for xi in xs])
                 return integrand(xs, ops)
-            res = nd.gradient(f, x)
-            emit({"kind": "driver", "name": "gradient", "n": n, "chain": ops, "x": [bits(v) for v in x], "result": nested_bits(res), "element_class": types[0],
-                  "seeds": nested_bits([list(s) if s is not None else [] for s in seeds[0]])})
-            types.clear(); seeds.clear()
-            res = nd.hessian(f, x)
-            emit({"kind": "driver", "name": "hessian", "n": n, "chain": ops, "x": [bits(v) for v in x], "result": nested_bits(res), "element_class": types[0],
-                  "seeds": nested_bits([list(s) if s is not None else [] for s in seeds[0]])})
+            def run_gradient():
+                types.clear(); seeds.clear()
+                res = nd.gradient(f, x)
+                emit({"kind": "driver", "name": "gradient", "n": n, "chain": ops, "x": [bits(v) for v in x], "result": nested_bits(res), "element_class": types[0],
+                      "seeds": nested_bits([list(s) if s is not None else [] for s in seeds[0]])})
+            def run_hessian():
+                types.clear(); seeds.clear()
+                res = nd.hessian(f, x)
+                emit({"kind": "driver", "name": "hessian", "n": n, "chain": ops, "x": [bits(v) for v in x], "result": nested_bits(res), "element_class": types[0],
+                      "seeds": nested_bits([list(s) if s is not None else [] for s in seeds[0]])})
+            attempt("gradient", run_gradient)
+            attempt("hessian", run_hessian)
             if n <= 10:
-                for m in (1, 2, 3):
+                # output lengths below, equal to and above the input length
+                for m in sorted({1, 2, 3, n, n + 1}):
                     def g(xs):
                         return [chain(xs[r % n], ops) * xs[(r + 1) % n] + float(r) for r in range(m)]
-                    res = nd.jacobian(g, x)
-                    emit({"kind": "driver", "name": "jacobian", "n": n, "m": m, "chain": ops, "x": [bits(v) for v in x], "result": nested_bits(res)})
+                    def run_jacobian():
+                        res = nd.jacobian(g, x)
+                        emit({"kind": "driver", "name": "jacobian", "n": n, "m": m, "chain": ops, "x": [bits(v) for v in x], "result": nested_bits(res)})
+                    attempt("jacobian", run_jacobian)
         for m in range(1, 7):
             for n in range(1, 7):
                 x, y = point(m), point(n, 4)
@@ -218,19 +240,21 @@ def drivers(max_n):
                 def h(xs, ys):
                     types.append(type(xs[0]).__name__)
                     return integrand(list(xs) + list(ys), ops)
-                res = nd.partial_hessian(h, x, y)
-                emit({"kind": "driver", "name": "partial_hessian", "m": m, "n": n, "chain": ops, "x": [bits(v) for v in x], "y": [bits(v) for v in y], "result": nested_bits(res),
-                      "element_class": types[0]})
+                def run_ph():
+                    res = nd.partial_hessian(h, x, y)
+                    emit({"kind": "driver", "name": "partial_hessian", "m": m, "n": n, "chain": ops, "x": [bits(v) for v in x], "y": [bits(v) for v in y], "result": nested_bits(res),
+                          "element_class": types[0]})
+                attempt("partial_hessian", run_ph)
         x, y, z = 0.625, 1.375, 0.875
-        emit({"kind": "driver", "name": "second_partial_derivative", "chain": ops, "x": [bits(x), bits(y)],
-              "result": nested_bits(nd.second_partial_derivative(lambda a, b: integrand([a, b], ops), x, y))})
-        emit({"kind": "driver", "name": "third_partial_derivative", "chain": ops, "x": [bits(x), bits(y), bits(z)],
-              "result": nested_bits(nd.third_partial_derivative(lambda a, b, c: integrand([a, b, c], ops), x, y, z))})
+        attempt("second_partial_derivative", lambda: emit({"kind": "driver", "name": "second_partial_derivative", "chain": ops, "x": [bits(x), bits(y)],
+              "result": nested_bits(nd.second_partial_derivative(lambda a, b: integrand([a, b], ops), x, y))}))
+        attempt("third_partial_derivative", lambda: emit({"kind": "driver", "name": "third_partial_derivative", "chain": ops, "x": [bits(x), bits(y), bits(z)],
+              "result": nested_bits(nd.third_partial_derivative(lambda a, b, c: integrand([a, b, c], ops), x, y, z))}))
         for n in (1, 2, 3):
             xs = point(n)
             for i, j, k in itertools.product(range(n), repeat=3):
-                emit({"kind": "driver", "name": "third_partial_derivative_vec", "n": n, "ijk": [i, j, k], "chain": ops, "x": [bits(v) for v in xs],
-                      "result": nested_bits(nd.third_partial_derivative_vec(lambda v: integrand(list(v), ops), xs, i, j, k))})
+                attempt("third_partial_derivative_vec", lambda: emit({"kind": "driver", "name": "third_partial_derivative_vec", "n": n, "ijk": [i, j, k], "chain": ops, "x": [bits(v) for v in xs],
+                      "result": nested_bits(nd.third_partial_derivative_vec(lambda v: integrand(list(v), ops), xs, i, j, k))}))
 
 CLASSES = ["Dual64", "Dual2_64", "Dual3_64", "HyperDual64", "HyperHyperDual64", "HyperDualDual64", "Dual2Dual64", "Dual3Dual64"]
 for cls in CLASSES:
